@@ -54,6 +54,8 @@ type gen struct {
 	names                []string // other templates that may be included/imported
 	inApply, inSpaceless bool
 	where                []string // enclosing constructs, innermost last (tags spy ids with their position)
+	mask                 uint64   // swarm: segment kinds switched off for this program (bit = case number)
+	maskSet              bool
 }
 
 var words = []string{"alpha", "beta", "gamma", "delta", "x", "yz", "Hello World", "a,b,c", "été", "日本", "<b>&\"'</b>", "  pad  ", ""}
@@ -352,7 +354,21 @@ func (g *gen) seg(d int) string {
 		}
 		return g.print(g.scalar(1))
 	}
-	switch g.r.N(23) {
+	if !g.maskSet {
+		// swarm testing: every program switches a random third of the construct kinds off, so that the
+		// remaining ones occur more densely and in combinations a uniform mix rarely produces
+		g.maskSet = true
+		for b := 3; b < 23; b++ {
+			if g.r.P(33) {
+				g.mask |= 1 << uint(b)
+			}
+		}
+	}
+	c := g.r.N(23)
+	for tries := 0; g.mask&(1<<uint(c)) != 0 && tries < 8; tries++ {
+		c = g.r.N(23)
+	}
+	switch c {
 	case 0, 1, 2:
 		return g.text()
 	case 3, 4, 5:
@@ -570,7 +586,9 @@ func genProgram(r *R, f Feat) *Program {
 		}
 		p.Templates = append(p.Templates, base)
 		ref := base.Name
+		deep := false
 		if r.P(35) {
+			deep = true
 			// a middle level: main extends mid extends base
 			mid := Tmpl{Name: dir + "mid"}
 			mid.Segs = append(mid.Segs, g.open("extends '"+base.Name+"'"))
@@ -590,7 +608,7 @@ func genProgram(r *R, f Feat) *Program {
 		for i := 0; i < nb; i++ {
 			if r.P(70) {
 				b := g.at("child-block", func() string { return g.body(2) })
-				if r.P(40) {
+				if r.P(40) && !deep { // parent() through two levels fails in this engine (C10's subject)
 					b += g.print("parent()")
 				}
 				main.Segs = append(main.Segs, g.open(fmt.Sprintf("block b%d", i))+b+g.open("endblock"))
